@@ -5,9 +5,10 @@ SPECS["C04"] = ("""property C04: stored events read back byte-identical, forever
    Object-level log model (Db.v): the log is append-only, so an offset that reads back an event
    keeps reading back the same event after ANY later operations (stores incl. growth, removals,
    deletions, vanish, extra-table writes, reopen); offsets returned by successful stores are fresh,
-   8-aligned and strictly increasing, hence pairwise distinct.  By-id lookup of retrievable
-   events is part of the refinement (C17).  The byte level (marker, padding, growth) is LogBytes.v.""",
-  DBIMP, [
+   8-aligned and strictly increasing, hence pairwise distinct.  By-id lookup: the id index invariant
+   (DbIdInv.v, induction over all concrete histories) - every id entry points at a logged event with that id.
+   The byte level (marker, padding, growth) is decided by the correspondence run in both profiles.""",
+  DBIMP + "\nFrom Pocket Require Import DbIdInv.", [
   ("C04_readback_forever",
    "forall s off e ops, get_event_by_offset s off = Ok e -> get_event_by_offset (c_run ops s) off = Ok e",
    "readback_forever", "for every continuation [ops]: store / remove / vanish / xput / reopen in any order"),
@@ -18,6 +19,12 @@ SPECS["C04"] = ("""property C04: stored events read back byte-identical, forever
    "forall names ops1 e1 s1 off1 ops2 e2 s2 off2,\n    store_event (c_run ops1 (db_init names)) e1 = (s1, Ok off1) ->\n    store_event (c_run ops2 s1) e2 = (s2, Ok off2) -> off1 < off2",
    "offsets_never_reused", "any two successful stores of one history (one store file)"),
   ("C04_reopen_identity", "forall s, reopen s = s", "reopen_identity", "reopen forgets only the volatile file length, which the model does not keep"),
+  ("C04_by_id_lookup_sound_and_total",
+   "forall ops names id, let s := c_run ops (db_init names) in\n    (get_event_by_id s id = Ok None /\\ has_event s id = false) \\/\n    (exists e off, get_event_by_id s id = Ok (Some e) /\\ e_id e = id /\\ has_event s id = true /\\\n                   get_event_by_offset s off = Ok e /\\ t_get (t_i (committed s)) id = Some off)",
+   "by_id_never_fails", "every reachable state of the CONCRETE store: a lookup by id never errs, returns an event with exactly that id, the same event its index offset reads back"),
+  ("C04_stored_event_found_by_id",
+   "forall ops names e s' off, let s := c_run ops (db_init names) in\n    store_event s e = (s', Ok off) -> is_ephemeral (e_kind e) = false -> e_kind e <> 5 ->\n    get_event_by_id s' (e_id e) = Ok (Some e) /\\ has_event s' (e_id e) = true",
+   "stored_event_found_by_id", "after any history; deletion requests (which may name themselves) are covered by the correspondence run"),
   ], """(* non-vacuity: a history crossing several stores *)
 Example C04_example :
   let e := mkE (repeat 1 32) (repeat 2 32) (repeat 3 64) 1 5 [] [7] in
@@ -156,14 +163,33 @@ Proof. vm_compute. split; reflexivity. Qed.
 SPECS["C05"] = ("""property C05: queries return exactly the matching events, newest first, newest-k under limit.
    PARTIAL.  Proved here: what the specification of a query (ADb.a_query) means - every result is
    retrievable, matches and passes the screen; results are sorted newest first; the count is
-   min(limit, qualifying); every qualifying event is in the unlimited answer.  The refinement
-   "Db.find_events (each of the seven plans) returns a_query up to ties at the cut" is checked by the
+   min(limit, qualifying); every qualifying event is in the unlimited answer.  Proved of the CONCRETE
+   planner (Db.find_events, all seven plans) for every state: soundness (results stored, matching,
+   screened, newest first, duplicate-free, within the limit, redacted flag sound), no panic, scraping
+   refusal only when justified.  COMPLETENESS of the plans ("every qualifying event is found", i.e.
+   find_events = a_query up to ties at the cut) needs the index invariants; it is checked by the
    differential run on every generated history and is not yet a Coq theorem (DESIGN.md C05).""",
-  DBIMP, [
+  DBIMP + "\nFrom Pocket Require Import DbQuerySound.", [
   ("C05_query_spec_meaning_partial",
    "forall st f screen,\n    (forall x, In x (a_query st f screen) -> In x (live st) /\\ spec_matches f x = true /\\ screen x = SMatch) /\\\n    desc_sorted (a_query st f screen) /\\\n    len (a_query st f screen) = N.min (f_limit f) (len (a_qualifying st f screen)) /\\\n    (forall x, In x (live st) -> spec_matches f x = true -> screen x = SMatch -> In x (a_qualifying st f screen)) /\\\n    a_query st f screen = ltake (f_limit f) (a_qualifying st f screen)",
    "a_query_meaning", ""),
-  ], "")
+  ("C05_concrete_planner_sound",
+   "forall s f screen now allow_scraping allow_limit allow_seconds out red,\n    find_events s f screen now allow_scraping allow_limit allow_seconds = Ok (out, red) ->\n    Forall (good s f screen) out /\\ desc_sorted out /\\ NoDup (map okey out) /\\ len out <= f_limit f /\\ (red = true -> redsrc s f screen)",
+   "find_events_sound", "EVERY store state (no invariant assumed), every plan: results are stored events read through an index entry that match and were screened Match; newest first; no two with the same (created_at, id); at most limit; redacted flag sound"),
+  ("C05_query_never_panics",
+   "forall s f screen now allow_scraping allow_limit allow_seconds, lettered f ->\n    find_events s f screen now allow_scraping allow_limit allow_seconds <> Panic",
+   "find_events_no_panic", "every state, every filter whose tag constraints have non-empty names (the only ones the JSON syntax and the constructors produce)"),
+  ("C05_scraper_refusal_only_when_justified",
+   "forall s f screen now allow_scraping allow_limit allow_seconds,\n    find_events s f screen now allow_scraping allow_limit allow_seconds = Err EScraper ->\n    f_ids f = [] /\\ f_authors f = [] /\\ f_tags f = [] /\\\n    allow_scraping = false /\\ allow_limit < f_limit f /\\ allow_seconds <= N.min (f_until f) now - f_since f",
+   "find_events_scraper_only_when_justified", "saturating subtraction as in the repaired code"),
+  ], """(* non-vacuity: a stored event found by the author+kind plan *)
+Example C05_example :
+  let e := mkE (repeat 1 32) (repeat 2 32) (repeat 3 64) 1 5 [] [7] in
+  let f := mkF [] [repeat 2 32] [1] [] 0 100 10 in
+  exists s1, store_event (db_init []) e = (s1, Ok 8) /\\
+             find_events s1 f (fun _ => SMatch) 1000 false 0 0 = Ok ([e], false).
+Proof. vm_compute. eexists. split; reflexivity. Qed.
+""")
 
 SPECS["C16"] = ("""property C16: reopen and rebuild preserve everything observable.
    PARTIAL.  Proved: reopen is the identity on the model state (the code re-derives only the
@@ -195,10 +221,12 @@ SPECS["C17"] = ("""property C17: every access path agrees and index accounting n
    the entries whose key lies in the closed interval, in ascending key order; Db.index / Db.deindex
    are put_all / del_all of the event's key lists on each table; deindexing removes exactly the
    keys indexing added (membership and entry count restored) and indexing fresh keys adds one entry
-   per DISTINCT key - the count formula the harness checks after every step.  The global invariant
-   "every table is exactly the image of the retrievable set" over all histories is checked by the
-   differential run (counters and own-field queries after every op), not yet a Coq theorem.""",
-  DBIMP.replace("DbProofs.", "DbProofs TableProofs."), [
+   per DISTINCT key - the count formula the harness checks after every step.  THE GLOBAL INVARIANT
+   (DbIndexInv.v): in every reachable state of the concrete store each of the six secondary tables is
+   exactly the image of the id index (no leaked entry, no missing key, one entry per key), and the
+   single-key tables have exactly one entry per retrievable event.  Still decided only per run: that the
+   distinct-(letter, padded value) count formula of the tag tables matches the code, and rebuild.""",
+  DBIMP.replace("DbProofs.", "DbProofs TableProofs DbIdInv DbIndexInv."), [
   ("C17_range_scan_exact_partial",
    "forall t lo hi k v, In (k, v) (t_range t lo hi) <-> In (k, v) t /\\ lex_lt k lo = false /\\ lex_lt hi k = false",
    "t_range_spec", ""),
@@ -218,7 +246,24 @@ SPECS["C17"] = ("""property C17: every access path agrees and index accounting n
   ("C17_index_count_partial",
    "forall t ks off, keys_unique t -> (forall k0 v0, In k0 ks -> ~ In (k0, v0) t) ->\n    len (put_all t ks off) = len t + len (nodup (list_eq_dec N.eq_dec) ks)",
    "put_all_count", "one entry per distinct key: two tags of one event equal up to pad182 share one key"),
-  ], "")
+  ("C17_indexes_are_image_of_id_index",
+   "forall ops names, ops_wf ops -> let s := c_run ops (db_init names) in let tb := committed s in\n    forall T K, In (T, K) [(t_ci tb, keys_ci); (t_ac tb, keys_ac); (t_akc tb, keys_akc); (t_tc tb, keys_tc); (t_atc tb, keys_atc); (t_ktc tb, keys_ktc)] ->\n    keys_unique T /\\\n    (forall k off, In (k, off) T -> exists e, get_event_by_id s (e_id e) = Ok (Some e) /\\ t_get (t_i tb) (e_id e) = Some off /\\ In k (K e)) /\\\n    (forall e, get_event_by_id s (e_id e) = Ok (Some e) -> exists off, t_get (t_i tb) (e_id e) = Some off /\\ forall k, In k (K e) -> In (k, off) T)",
+   "indexes_are_image_of_id_index", "THE global invariant, all histories of the concrete store (stores with replacement and deletion requests of any tag lists, removals, vanish, extra tables, reopen; events with 32-byte ids): no index entry without a retrievable event owning that key, no retrievable event with a key missing, one entry per key"),
+  ("C17_single_key_counts_agree",
+   "forall ops names, ops_wf ops -> let tb := committed (c_run ops (db_init names)) in\n    len (t_ci tb) = len (t_i tb) /\\ len (t_ac tb) = len (t_i tb) /\\ len (t_akc tb) = len (t_i tb)",
+   "index_counts_agree", "the counter equalities the harness checks after every operation"),
+  ("C17_id_path_agrees_with_offset_path",
+   "forall ops names id, let s := c_run ops (db_init names) in\n    (get_event_by_id s id = Ok None /\\ has_event s id = false) \\/\n    (exists e off, get_event_by_id s id = Ok (Some e) /\\ e_id e = id /\\ has_event s id = true /\\\n                   get_event_by_offset s off = Ok e /\\ t_get (t_i (committed s)) id = Some off)",
+   "by_id_never_fails", "every reachable concrete state: has_event, get_event_by_id and the offset path agree; the id index holds one entry per id (no leak of dangling entries)"),
+  ], """(* non-vacuity: a replaceable event replaced by a newer one carrying a tag; one event left, 1 entry in each of the 7 tables *)
+Example C17_example :
+  let pk := repeat 2 32 in
+  let e1 := mkE (repeat 1 32) pk (repeat 3 64) 10000 5 [] [] in
+  let e2 := mkE (repeat 9 32) pk (repeat 3 64) 10000 6 [[[116]; [120]]] [] in
+  let ops := [CStore e1; CStore e2] in
+  ops_wf ops /\\ firstn 7 (stats (c_run ops (db_init []))) = [1; 1; 1; 1; 1; 1; 1].
+Proof. cbv zeta. split; [repeat constructor|vm_compute; reflexivity]. Qed.
+""")
 
 CODIMP = "From Pocket Require Import Escape JsonParse Codec EscapeProofs NumProofs HexProofs Db DbProofs ParseTotal."
 
